@@ -395,6 +395,132 @@ def replay_sched(case, obs):
             raise Fail("sched-two-winners", "id %d: gets returned different objects %s" % (i, sorted("%x" % v for v in defaults)))
 
 
+# ---------------------------------------------------------------------------------------
+# "regs" cases: register / unregister / lookup of the same names by several threads
+def parse_regs_case(case):
+    hd, progs, sched = case.split("|")
+    pre = [tuple(int(x) for x in w.split("@")) for w in hd.split()[1:]]
+    threads = [[(tok[0], int(tok.split(":")[1])) for tok in th.split()] for th in progs.split("/")]
+    return pre, threads
+
+
+def pairs(txt):
+    return [tuple(int(x) for x in p.split("=")) for p in txt.split(",") if p]
+
+
+def replay_regs(case, obs):
+    """The property for concurrent clients of one registry (each thread unregisters only ids it
+    holds): whenever a thread looks at the registry, every name is listed once and every id once;
+    a successful registration is listed with the id returned and stays until its holder
+    unregisters it, so of several registrations of one name at most one holds at any time; a
+    registration only fails when somebody registered that name; lookup returns the id a
+    registrant of that name got; in the end the registry holds exactly what the threads hold."""
+    pre, threads = parse_regs_case(case)
+    if obs.startswith("<") or "<deadlock>" in obs or "<crash>" in obs or "<timeout>" in obs or "<exit" in obs:
+        raise Fail("regs-noreturn", "the threads did not all return: " + obs[-60:])
+    parts = [p.strip() for p in obs.split(" | ")]
+    if len(parts) != len(threads) + 4 or not parts[0].startswith("init{"):
+        raise Fail("unparsable", "unparsable observation: " + obs[:80])
+    init = pairs(parts[0][5:-1])
+    parts = parts[1:]
+    m = re.match(r"^reg\[([^\]]*)\]max=(-?\d+)$", parts[len(threads)])
+    if not m:
+        raise Fail("unparsable", "unparsable registry: " + parts[len(threads)][:60])
+    final, max_id = pairs(m.group(1)), int(m.group(2))
+
+    def wellformed(listing, when):
+        ids, names = [i for i, _ in listing], [n for _, n in listing]
+        for n in set(names):
+            if names.count(n) > 1:
+                raise Fail("regs-name-twice", "%s: name %d is registered %d times (ids %s)"
+                           % (when, n, names.count(n), sorted(i for i, x in listing if x == n)))
+        if len(set(ids)) != len(ids):
+            raise Fail("regs-id-twice", "%s: an id is listed twice: %s" % (when, listing))
+
+    wellformed(init, "before the threads start")
+    held = [dict() for _ in threads]            # per thread: name -> id it holds
+    ever = {}                                   # name -> ids given to registrants of that name
+    seen = set()
+    for n, t in pre:                            # the first registration of a name wins, later ones fail
+        if n in seen:
+            continue
+        seen.add(n)
+        ids = [i for i, x in init if x == n]
+        if len(ids) != 1 or t >= len(threads):
+            raise Fail("unparsable", "name %d registered before the start is not listed in %s" % (n, init))
+        held[t][n] = ids[0]
+        ever.setdefault(n, set()).add(ids[0])
+    results = []
+    for t, ops in enumerate(threads):
+        toks = parts[t].split(":", 1)[1].split()
+        if len(toks) != len(ops):
+            raise Fail("unparsable", "thread %d printed %d results for %d ops" % (t, len(toks), len(ops)))
+        for (k, n), tok in zip(ops, toks):
+            mm = re.match(r"^([RUL])=(-?\d+|skip)\{([^}]*)\}$", tok)
+            if not mm or mm.group(1) != k:
+                raise Fail("unparsable", "result %s for op %s:%d" % (tok, k, n))
+            results.append((t, k, n, mm.group(2), None if mm.group(3) == "?" else pairs(mm.group(3))))
+            if k == "R" and mm.group(2) not in ("-1", "skip"):
+                ever.setdefault(n, set()).add(int(mm.group(2)))
+    for t, k, n, ret, snap in results:
+        what = "%s:%d of thread %d" % (k, n, t)
+        if snap is not None:
+            wellformed(snap, "after " + what)
+        if k == "R":
+            if ret == "-1":
+                if n not in ever:
+                    raise Fail("regs-spurious-failure", "%s failed although nobody ever registered that name" % what)
+            else:
+                rid = int(ret)
+                if n in held[t]:
+                    raise Fail("regs-name-twice", "%s succeeded (id %d) while the thread holds id %d for that name" % (what, rid, held[t][n]))
+                held[t][n] = rid
+        elif k == "U":
+            if ret == "skip":
+                if n in held[t]:
+                    raise Fail("unparsable", "%s was skipped although the thread holds id %d" % (what, held[t][n]))
+            elif n not in held[t]:
+                raise Fail("unparsable", "%s was run although the thread holds no id for that name" % what)
+            else:
+                if ret != str(held[t][n]):
+                    raise Fail("regs-unregister-failed", "%s: unregister(id %d) returned %s" % (what, held[t][n], ret))
+                del held[t][n]
+        else:
+            if ret == "-1":
+                if n in held[t]:
+                    raise Fail("regs-lookup-mismatch", "%s returned -1 while the thread holds id %d for that name" % (what, held[t][n]))
+            else:
+                lid = int(ret)
+                if n in held[t] and held[t][n] != lid:
+                    raise Fail("regs-lookup-mismatch", "%s returned %d, the thread holds id %d for that name" % (what, lid, held[t][n]))
+                if lid not in ever.get(n, ()):
+                    raise Fail("regs-lookup-mismatch", "%s returned %d, no registrant of that name got this id" % (what, lid))
+        for hn, hid in held[t].items():
+            if snap is not None and (hid, hn) not in snap:
+                raise Fail("regs-registration-lost", "after %s the thread holds id %d for name %d but the registry lists %s"
+                           % (what, hid, hn, snap))
+    wellformed(final, "at the end")
+    want = sorted((i, n) for h in held for n, i in h.items())
+    if sorted(final) != want:
+        raise Fail("regs-final-mismatch", "the registry ends with %s, the threads hold %s" % (sorted(final), want))
+    if final and max_id < max(i for i, _ in final):
+        raise Fail("max-id-mismatch", "max_id %d below a live id in %s" % (max_id, final))
+
+
+REGS_DIRECTED = [
+    # two / three threads register the same name at the same moment: exactly one id is given out
+    "regs | R:0 / R:0 | ",
+    "regs | R:0 / R:0 | 0 1 0 1 0 1 0 1 0 1",
+    "regs | R:0 / R:0 / R:0 | 0 1 2 0 1 2 0 1 2",
+    "regs | R:0 L:0 / R:0 L:0 | 0 0 1 1 0 1 0 1",
+    "regs 1@0 | R:0 L:0 / R:0 L:1 / L:0 R:0 | 0 1 2 2 1 0",
+    # registration concurrent with the unregistration of that name, different names, holes
+    "regs 0@0 | U:0 R:0 / R:0 L:0 | 0 1 0 1 0 1 1 0",
+    "regs 0@0 1@1 | U:0 R:2 L:1 / U:1 R:0 L:0 / L:0 R:2 U:2 | 0 1 2 2 1 0 0 0 1 1 2 2",
+    "regs 0@0 1@0 2@1 | U:0 R:3 / U:2 R:4 / R:3 R:4 | 2 2 0 1 0 1 2 2",
+]
+
+
 SCHED_DIRECTED = [
     # two callers present NULL: whatever the interleaving exactly one wins and both return the winner
     "sched 1 0:0 | T:0:a1:0 / T:0:b2:0 | ",
@@ -420,7 +546,8 @@ class C41(Check):
                 "C41_operations_return_refuted", "C41_get_returns_last_set_refuted",
                 "C41_fresh_info_reads_null_refuted",
                 "C41_conc_all_callers_agree", "C41_conc_single_winner", "C41_conc_constructed_objects",
-                "C41_conc_destructed_not_stored")
+                "C41_conc_destructed_not_stored",
+                "C41_conc_registry_injective", "C41_conc_one_registrant_per_name", "C41_conc_registry_views")
     comp = "info"
     extract_file = "theories/Extract/Extract_Info.v"
     extracted = ("info",)
@@ -449,8 +576,14 @@ class C41(Check):
         "destructed exactly when the info has a destructor, and a destructed object is never the stored one.  The model is "
         "compared step for step with the real code under controlled schedules (T-sched); in addition a race-exploration "
         "build makes every plain access to the slots, the array fields, the rw-lock and the registry a scheduling point and "
-        "feeds the oracle (search only).  Not modelled concurrently: registration / unregistration racing with the array "
-        "operations and the resize under the write lock (the arrays of the T-sched cases are created large enough).")
+        "feeds the oracle (search only).  Registry (InfoConcRegDefs.v): any number of threads call register / "
+        "unregister of an id they hold / lookup, each call atomic at the step that takes the list lock; theorems for ANY "
+        "schedule: names and ids stay in one-to-one relation, a name has at most one holder and lookup returns the id that "
+        "holder got, every view a thread takes of the registry lists each id and each name once; tied by a second T-sched "
+        "stream ('regs' cases: same-name registrations at the same moment, registration racing with the unregistration of "
+        "that name, hole reuse) and its race-exploration variant.  Not modelled concurrently: registration / unregistration "
+        "racing with the array operations and the resize under the write lock (the arrays of the T-sched cases are created "
+        "large enough).")
     level_note = ("Trusted: Coq kernel, extraction, harness, the Python dictionary oracle.  The harness #includes info.c with its "
                   "allocator calls redirected so that realloc-grown memory is filled with 0xA5 and calloc'ed memory is zero: "
                   "indeterminate bytes become a visible value, the model uses the same constant.  Little-endian 64-bit pointers.  "
@@ -472,7 +605,11 @@ class C41(Check):
             "operations (families: everybody test_and_set(NULL -> own value) + gets; everybody asks for the constructed "
             "default; chains whose expected value is a value another thread writes; mixes with set), every value written is "
             "distinct and non-NULL; schedules: none (round-robin), one thread after the other, everybody up to the CAS then "
-            "in reverse, random up to 60 steps (200 for the race exploration).  Non-trivial = two threads share an id")
+            "in reverse, random up to 60 steps (200 for the race exploration).  Non-trivial = two threads share an id.  "
+            "(e) registry T-sched: 2..4 threads of 1..4 register / unregister-own / lookup calls over 1..5 names, 0..3 names "
+            "registered beforehand for given threads (families: everybody registers the same name; register/unregister "
+            "cycles on one name; mixes), schedules: round-robin, one after the other, lock step, random up to 60 (300 for "
+            "the race exploration).  Non-trivial = two threads use a common name")
     trusted = ("harness/h_info.c: info.c, parsec_list.c, parsec_object.c, parsec_rwlock.c are #included; malloc/calloc/realloc/"
                "free/strdup inside info.c go to wrappers (0xA5 fill, zero fill, 0x5A on free); cases run in a forked child so "
                "that a crash of the code under test is an observation",
@@ -636,6 +773,45 @@ class C41(Check):
         return "sched %d %s | %s | %s" % (n, " ".join("%d:%d" % x for x in infos), " / ".join(threads),
                                           " ".join(str(x) for x in sched))
 
+    def regs_case(self, r, long_sched=False):
+        nt = r.range(2, 4)
+        npool = r.pick([1, 2, 2, 3, 4])
+        pre, used = [], set()
+        for n in r.shuffle(range(npool + 1))[:r.pick([0, 0, 1, 2, 3])]:
+            pre.append((n, r.below(nt)))
+            used.add(n)
+        fam = r.below(4)
+        hot = r.below(npool)
+        threads = []
+        for t in range(nt):
+            ops, mine = [], set(n for n, tt in pre if tt == t)
+            for _ in range(r.range(1, 4)):
+                n = hot if r.chance(2, 3) else r.below(npool + 1)
+                if fam == 0:                                   # everybody registers the same name
+                    k = r.pick(["R", "R", "R", "L"])
+                elif fam == 1:                                 # register / unregister cycles on one name
+                    k = "U" if (n in mine and r.chance(2, 3)) else r.pick(["R", "R", "L"])
+                else:
+                    k = r.pick(["R", "R", "U", "L", "L"])
+                    if k == "U" and mine and r.chance(2, 3):
+                        n = r.pick(sorted(mine))
+                ops.append("%s:%d" % (k, n))
+                if k == "R":
+                    mine.add(n)
+                elif k == "U":
+                    mine.discard(n)
+            threads.append(" ".join(ops))
+        kind = r.below(6)
+        if kind == 0:
+            sched = []
+        elif kind == 1:
+            sched = [t for t in r.shuffle(range(nt)) for _ in range(30)]
+        elif kind == 2:                                        # lock step: everybody arrives, then everybody goes on
+            sched = [t for _ in range(r.range(2, 8)) for t in range(nt)]
+        else:
+            sched = [r.below(nt) for _ in range(r.range(1, 300 if long_sched else 60))]
+        return "regs%s | %s | %s" % ("".join(" %d@%d" % x for x in pre), " / ".join(threads), " ".join(str(x) for x in sched))
+
     def cases(self):
         # Rng(seed) and Rng(seed+1) are the same SplitMix64 stream shifted by one draw and fall into
         # step after the first case; a fork (seeded by a mixed output) gives unrelated streams per seed
@@ -668,6 +844,11 @@ class C41(Check):
         out += SCHED_DIRECTED
         for _ in range(1200 if quick else 20000):
             out.append(self.sched_case(r2))
+        # concurrent clients of one registry, interleaved at the lock operations
+        r3 = self.rng.fork()
+        out += REGS_DIRECTED
+        for _ in range(1000 if quick else 15000):
+            out.append(self.regs_case(r3))
         return out
 
     def race_cases(self, cases):
@@ -676,9 +857,17 @@ class C41(Check):
         out = [c for c in cases if c.startswith("sched ")][:600 if self.tier == "quick" else 4000]
         for _ in range(600 if self.tier == "quick" else 6000):
             out.append(self.sched_case(r, long_sched=True))
+        out += [c for c in cases if c.startswith("regs")][:500 if self.tier == "quick" else 4000]
+        for _ in range(500 if self.tier == "quick" else 6000):
+            out.append(self.regs_case(r, long_sched=True))
         return out
 
     def nontrivial_key(self, case):
+        if case.startswith("regs"):
+            pre, threads = parse_regs_case(case)
+            names = [set(n for _, n in th) | set(n for n, t in pre if t == k) for k, th in enumerate(threads)]
+            shared = any(names[a] & names[b] for a in range(len(names)) for b in range(a + 1, len(names)))
+            return case if shared else None
         if case.startswith("sched "):
             infos, threads = parse_sched_case(case)
             ids = [set(op[1] for op in th) for th in threads]
@@ -688,13 +877,14 @@ class C41(Check):
 
     def dist(self, cases):
         d = {}
-        seq = [c for c in cases if not c.startswith("sched ")]
+        seq = [c for c in cases if not c.startswith("sched ") and not c.startswith("regs")]
+        d["regs_cases"] = sum(1 for c in cases if c.startswith("regs"))
         for c in seq:
             for t in c.split():
                 d[t[0]] = d.get(t[0], 0) + 1
         d["cases"] = len(cases)
         d["sequential_cases"] = len(seq)
-        d["sched_cases"] = len(cases) - len(seq)
+        d["sched_cases"] = sum(1 for c in cases if c.startswith("sched "))
         d["sched_threads"] = {}
         for c in cases:
             if c.startswith("sched "):
@@ -706,7 +896,7 @@ class C41(Check):
     # ------------------------------------------------------------------ oracle
     def oracle(self, case, obs):
         try:
-            (replay_sched if case.startswith("sched ") else replay)(case, obs)
+            (replay_regs if case.startswith("regs") else replay_sched if case.startswith("sched ") else replay)(case, obs)
         except Fail as e:
             return e.why
         except Exception as e:                       # the implementation printed garbage
@@ -715,7 +905,7 @@ class C41(Check):
 
     def signature(self, case, obs):
         try:
-            (replay_sched if case.startswith("sched ") else replay)(case, obs)
+            (replay_regs if case.startswith("regs") else replay_sched if case.startswith("sched ") else replay)(case, obs)
         except Fail as e:
             return e.sig
         except Exception:
